@@ -9,50 +9,761 @@ use crate::l0_prim::*;
 use crate::l1_choice::*;
 use crate::l1_limb::*;
 use crate::l2_core::*;
+use crate::l3_karatsuba::*;
 verus! {
 
 //@@ subst \b(Self|Uint)::(ZERO|ONE|MAX|BITS|LOG2_BITS)\b(?!\() => \1::\2()
 //@@ subst \bUint::<(\w+)>::(ZERO|ONE|MAX|BITS)\b(?!\() => Uint::<\1>::\2()
-//@@ fn src/uint/mul.rs | impl<const LIMBS: usize> Uint<LIMBS> | split_mul | stub | props C03 C11
+
+// ---- lemmas for the schoolbook grids
+
+/// value of a concatenation: val(a ++ b, |a| + m) = val(a, |a|) + val(b, m)·B^|a|
+pub proof fn lemma_val_concat(a: Seq<Limb>, b: Seq<Limb>, m: nat)
+    requires m <= b.len()
+    ensures val(a + b, a.len() + m) == val(a, a.len()) + val(b, m) * bp(a.len())
+    decreases m
+{
+    let n = a.len();
+    if m == 0 {
+        lemma_val_ext(a + b, a, n);
+        assert(0 * bp(n) == 0);
+    } else {
+        let m1 = (m - 1) as nat;
+        lemma_val_concat(a, b, m1);
+        lemma_bp_add(n, m1);
+        assert((a + b)[(n + m1) as int] == b[m1 as int]);
+        let x = b[m1 as int].0 as int;
+        assert((val(b, m1) + x * bp(m1)) * bp(n) == val(b, m1) * bp(n) + x * (bp(n) * bp(m1))) by (nonlinear_arith);
+        assert((n + m) as nat == (n + m1 + 1) as nat);
+    }
+}
+
+/// one multiply-accumulate step of a schoolbook row: position k = i + j receives x·y[j]
+proof fn lemma_mac_step(ca: Seq<Limb>, cold: Seq<Limb>, ys: Seq<Limb>, i: nat, j: nat, x: int, carry: int, carry_before: int)
+    requires
+        ca[(i + j) as int].0 as int + carry * B() == cold[(i + j) as int].0 as int + x * ys[j as int].0 as int + carry_before,
+    ensures
+        val(ca, i + j + 1) + carry * bp(i + j + 1) - val(cold, i + j + 1)
+            == val(ca, i + j) + carry_before * bp(i + j) - val(cold, i + j)
+               + x * val(ys, j + 1) * bp(i) - x * val(ys, j) * bp(i)
+{
+    let k = i + j;
+    let pk = bp(k);
+    lemma_bp_succ(k);
+    lemma_bp_add(i, j);
+    let w = ca[k as int].0 as int;
+    let c0 = cold[k as int].0 as int;
+    let y = ys[j as int].0 as int;
+    assert(w * pk + carry * (B() * pk) == c0 * pk + x * y * pk + carry_before * pk) by (nonlinear_arith)
+        requires w + carry * B() == c0 + x * y + carry_before;
+    assert(x * y * pk == x * (y * bp(j)) * bp(i)) by (nonlinear_arith)
+        requires pk == bp(i) * bp(j);
+    assert(x * (val(ys, j) + y * bp(j)) * bp(i) == x * val(ys, j) * bp(i) + x * (y * bp(j)) * bp(i)) by (nonlinear_arith);
+    assert(val(ys, j + 1) == val(ys, j) + y * bp(j));
+    assert(val(ca, k + 1) == val(ca, k) + w * pk);
+    assert(val(cold, k + 1) == val(cold, k) + c0 * pk);
+}
+
+
+// ---- squaring: half grid / diagonal decomposition
+
+/// half of the multiplication grid below the diagonal: sum_{r<i} x_r · val(x, r) · B^r  ( = sum_{j<r<i} x_r x_j B^(r+j) )
+pub open spec fn sq_half(s: Seq<Limb>, i: nat) -> int
+    decreases i
+{ if i == 0 { 0 } else { sq_half(s, (i - 1) as nat) + s[i - 1].0 as int * val(s, (i - 1) as nat) * bp((i - 1) as nat) } }
+
+/// the diagonal of the grid: sum_{r<i} x_r² · B^(2r)
+pub open spec fn sq_diag(s: Seq<Limb>, i: nat) -> int
+    decreases i
+{ if i == 0 { 0 } else { sq_diag(s, (i - 1) as nat) + s[i - 1].0 as int * s[i - 1].0 as int * bp((2 * (i - 1)) as nat) } }
+
+/// val(x, n)² = 2·half + diagonal
+proof fn lemma_sq_decomp(s: Seq<Limb>, n: nat)
+    ensures val(s, n) * val(s, n) == 2 * sq_half(s, n) + sq_diag(s, n)
+    decreases n
+{
+    if n == 0 {
+        assert(val(s, 0) == 0);
+    } else {
+        let m = (n - 1) as nat;
+        lemma_sq_decomp(s, m);
+        lemma_bp_add(m, m);
+        assert((m + m) as nat == (2 * (n - 1)) as nat);
+        let v = val(s, m); let a = s[m as int].0 as int; let q = bp(m); let qq = bp((2 * (n - 1)) as nat);
+        assert((v + a * q) * (v + a * q) == v * v + 2 * (a * v * q) + a * a * qq) by (nonlinear_arith)
+            requires qq == q * q;
+    }
+}
+
+/// writing limb k with carry-out `cout`: if the limbs below k agree and ca[k] + cout·B == rhs then …
+proof fn lemma_limb_step(ca: Seq<Limb>, cb: Seq<Limb>, k: nat, cout: int, rhs: int)
+    requires forall|j: int| 0 <= j < k ==> ca[j] == cb[j], ca[k as int].0 as int + cout * B() == rhs
+    ensures val(ca, k + 1) + cout * bp(k + 1) == val(cb, k) + rhs * bp(k)
+{
+    lemma_val_ext(ca, cb, k); lemma_bp_succ(k);
+    let w = ca[k as int].0 as int; let pk = bp(k);
+    assert((w + cout * B()) * pk == w * pk + cout * (B() * pk)) by (nonlinear_arith);
+}
+
+/// (w << 1 | c, w >> 63) is 2w + c split into limb and carry
+proof fn lemma_dbl(w: u64, c: u64, r: u64, h: u64)
+    requires c <= 1, r == (w << 1) | c, h as int == w as int / p2(63)
+    ensures r as int + h as int * B() == 2 * (w as int) + c as int, h <= 1
+{
+    lemma_u64_shr_div(w, 63);
+    let hw = w >> 63u32;
+    assert(h == hw);
+    assert(((w << 1u32) | c) as int + (hw as int) * 0x1_0000_0000_0000_0000 == 2 * (w as int) + c as int && hw <= 1) by (bit_vector)
+        requires c <= 1, hw == w >> 63u32;
+}
+
+/// one step of the doubling pass at position k
+proof fn lemma_dbl_step(ca: Seq<Limb>, cb: Seq<Limb>, c0: Seq<Limb>, k: nat, cout: int, cin: int)
+    requires
+        forall|j: int| 0 <= j < k ==> ca[j] == cb[j],
+        ca[k as int].0 as int + cout * B() == 2 * (c0[k as int].0 as int) + cin,
+        val(cb, k) + cin * bp(k) == 2 * val(c0, k),
+    ensures val(ca, k + 1) + cout * bp(k + 1) == 2 * val(c0, k + 1)
+{
+    let w = c0[k as int].0 as int; let pk = bp(k);
+    lemma_limb_step(ca, cb, k, cout, 2 * w + cin);
+    assert((2 * w + cin) * pk == 2 * (w * pk) + cin * pk) by (nonlinear_arith);
+}
+
+/// one step of the diagonal pass: positions 2i (mac x_i²) and 2i+1 (carry propagation)
+proof fn lemma_diag_step(ca: Seq<Limb>, cm: Seq<Limb>, cb: Seq<Limb>, c1: Seq<Limb>, xs: Seq<Limb>, i: nat, cin: int, cmid: int, cout: int)
+    requires
+        forall|j: int| 0 <= j < 2 * i ==> cm[j] == cb[j],
+        forall|j: int| 0 <= j < 2 * i + 1 ==> ca[j] == cm[j],
+        cm[(2 * i) as int].0 as int + cmid * B() == c1[(2 * i) as int].0 as int + xs[i as int].0 as int * xs[i as int].0 as int + cin,
+        ca[(2 * i + 1) as int].0 as int + cout * B() == c1[(2 * i + 1) as int].0 as int + cmid,
+        val(cb, 2 * i) + cin * bp(2 * i) == val(c1, 2 * i) + sq_diag(xs, i),
+    ensures
+        val(ca, 2 * i + 2) + cout * bp(2 * i + 2) == val(c1, 2 * i + 2) + sq_diag(xs, i + 1)
+{
+    let k = 2 * i; let pk = bp(k); let pk1 = bp(k + 1);
+    let a = c1[k as int].0 as int; let b = c1[(k + 1) as int].0 as int; let x = xs[i as int].0 as int;
+    lemma_limb_step(cm, cb, k, cmid, a + x * x + cin);
+    assert((a + x * x + cin) * pk == a * pk + x * x * pk + cin * pk) by (nonlinear_arith);
+    lemma_limb_step(ca, cm, k + 1, cout, b + cmid);
+    assert((b + cmid) * pk1 == b * pk1 + cmid * pk1) by (nonlinear_arith);
+    assert(val(c1, k + 1) == val(c1, k) + a * pk);
+    assert(val(c1, k + 2) == val(c1, k + 1) + b * pk1);
+    assert(sq_diag(xs, i + 1) == sq_diag(xs, i) + x * x * bp((2 * ((i + 1) - 1)) as nat));
+    assert((2 * ((i + 1) - 1)) as nat == k);
+}
+
+/// lo + hi·w == p with 0 <= lo < w: quotient / remainder / overflow facts
+proof fn lemma_split_facts(lo: int, hi: int, w: int, p: int)
+    requires lo + hi * w == p, 0 <= lo < w, hi >= 0
+    ensures lo == p % w, hi == p / w, (hi == 0) == (p < w), p >= 0
+{
+    lemma_fundamental_div_mod_converse(p, w, hi, lo);
+    assert(hi >= 1 ==> hi * w >= w) by (nonlinear_arith) requires w > 0;
+    assert(hi == 0 ==> hi * w == 0);
+    assert(hi * w >= 0) by (nonlinear_arith) requires hi >= 0, w > 0;
+}
+
+//@@ fn src/uint/mul.rs | - | schoolbook_multiplication | body | props C03 C11
+pub const fn schoolbook_multiplication(lhs: &[Limb], rhs: &[Limb], lo: &mut [Limb], hi: &mut [Limb])
+//@+
+    requires
+        lhs.len() == old(lo).len(), rhs.len() == old(hi).len(),
+        lhs.len() + rhs.len() <= usize::MAX,
+        forall|k: int| 0 <= k < old(lo).len() ==> old(lo)[k].0 == 0,
+        forall|k: int| 0 <= k < old(hi).len() ==> old(hi)[k].0 == 0,
+    ensures
+        final(lo).len() == lhs.len(), final(hi).len() == rhs.len(),
+        val(final(lo)@ + final(hi)@, (lhs.len() + rhs.len()) as nat) == val(lhs@, lhs.len() as nat) * val(rhs@, rhs.len() as nat),
+        val(final(lo)@, lhs.len() as nat) + val(final(hi)@, rhs.len() as nat) * bp(lhs.len() as nat) == val(lhs@, lhs.len() as nat) * val(rhs@, rhs.len() as nat),
+//@-
+{
+    if lhs.len() != lo.len() || rhs.len() != hi.len() {
+        panic!("schoolbook multiplication length mismatch");
+    }
+//@+
+    let ghost n = lhs.len() as nat;
+    let ghost m = rhs.len() as nat;
+//@-
+    let mut i = 0;
+//@+
+    proof {
+        lemma_val_zero(lo@ + hi@, m);
+    }
+//@-
+    while i < lhs.len()
+//@+
+        invariant
+            n == lhs.len(), m == rhs.len(), lo.len() == n, hi.len() == m, n + m <= usize::MAX,
+            i <= n,
+            i == 0 ==> val(lo@ + hi@, m) == 0,
+            i > 0 ==> val(lo@ + hi@, (i + m) as nat) == val(lhs@, i as nat) * val(rhs@, m),
+        decreases n - i
+//@-
+{
+        let mut j = 0;
+        let mut carry = Limb::ZERO;
+        let xi = lhs[i];
+//@+
+        let ghost cold = lo@ + hi@;
+        let ghost p = val(lhs@, i as nat) * val(rhs@, m);
+        proof {
+            assert(val(cold, (i + m) as nat) == p) by {
+                if i == 0 {
+                    assert(val(lhs@, 0) == 0);
+                    assert(0 * val(rhs@, m) == 0);
+                }
+            }
+            lemma_bp_succ(0);
+        }
+//@-
+        while j < rhs.len()
+//@+
+            invariant
+                n == lhs.len(), m == rhs.len(), lo.len() == n, hi.len() == m, n + m <= usize::MAX,
+                i < n, j <= m, xi == lhs[i as int],
+                cold.len() == n + m,
+                val(cold, (i + m) as nat) == p,
+                forall|k: int| i + j <= k < n + m ==> (lo@ + hi@)[k] == cold[k],
+                val(lo@ + hi@, (i + j) as nat) + carry.0 as int * bp((i + j) as nat) + (val(cold, (i + m) as nat) - val(cold, (i + j) as nat))
+                    == p + xi.0 as int * val(rhs@, j as nat) * bp(i as nat),
+            decreases m - j
+//@-
+{
+            let k = i + j;
+//@+
+            let ghost c_before = lo@ + hi@;
+            let ghost carry_before = carry;
+//@-
+            if k >= lhs.len() {
+                let (__t0, __t1) = hi[k - lhs.len()].mac(xi, rhs[j], carry); hi[k - lhs.len()] = __t0; carry = __t1;
+            } else {
+                let (__t2, __t3) = lo[k].mac(xi, rhs[j], carry); lo[k] = __t2; carry = __t3;
+            }
+//@+
+            proof {
+                let c_after = lo@ + hi@;
+                assert(c_after =~= c_before.update(k as int, c_after[k as int]));
+                lemma_val_ext(c_before, c_after, k as nat);
+                assert(c_before[k as int] == cold[k as int]);
+                lemma_mac_step(c_after, cold, rhs@, i as nat, j as nat, xi.0 as int, carry.0 as int, carry_before.0 as int);
+            }
+//@-
+            j += 1;
+        }
+//@+
+        let ghost c_before = lo@ + hi@;
+//@-
+        if i + j >= lhs.len() {
+            hi[i + j - lhs.len()] = carry;
+        } else {
+            lo[i + j] = carry;
+        }
+//@+
+        proof {
+            let c_after = lo@ + hi@;
+            let k = (i + m) as nat;
+            assert(c_after =~= c_before.update(k as int, carry));
+            lemma_val_ext(c_before, c_after, k);
+            assert(val(c_after, k + 1) == val(c_after, k) + carry.0 as int * bp(k));
+            let x = xi.0 as int;
+            assert(val(lhs@, (i + 1) as nat) == val(lhs@, i as nat) + x * bp(i as nat));
+            assert((val(lhs@, i as nat) + x * bp(i as nat)) * val(rhs@, m) == p + x * val(rhs@, m) * bp(i as nat)) by (nonlinear_arith)
+                requires p == val(lhs@, i as nat) * val(rhs@, m);
+        }
+//@-
+        i += 1;
+    }
+//@+
+    proof {
+        if n == 0 {
+            assert(val(lhs@, 0) == 0);
+            assert(0 * val(rhs@, m) == 0);
+        }
+        lemma_val_concat(lo@, hi@, m);
+    }
+//@-
+}
+//@@ end
+//@@ fn src/uint/mul.rs | - | schoolbook_squaring | body | props C03 C11
+pub const fn schoolbook_squaring(limbs: &[Limb], lo: &mut [Limb], hi: &mut [Limb])
+//@+
+    requires
+        limbs.len() >= 1,
+        limbs.len() == old(lo).len(), old(lo).len() == old(hi).len(),
+        2 * limbs.len() <= usize::MAX,
+        forall|k: int| 0 <= k < old(lo).len() ==> old(lo)[k].0 == 0,
+        forall|k: int| 0 <= k < old(hi).len() ==> old(hi)[k].0 == 0,
+    ensures
+        final(lo).len() == limbs.len(), final(hi).len() == limbs.len(),
+        val(final(lo)@ + final(hi)@, (2 * limbs.len()) as nat) == val(limbs@, limbs.len() as nat) * val(limbs@, limbs.len() as nat),
+        val(final(lo)@, limbs.len() as nat) + val(final(hi)@, limbs.len() as nat) * bp(limbs.len() as nat) == val(limbs@, limbs.len() as nat) * val(limbs@, limbs.len() as nat),
+//@-
+{
+    // Translated from https://github.com/ucbrise/jedi-pairing/blob/c4bf151/include/core/bigint.hpp#L410
+    //
+    // Permission to relicense the resulting translation as Apache 2.0 + MIT was given
+    // by the original author Sam Kumar: https://github.com/RustCrypto/crypto-bigint/pull/133#discussion_r1056870411
+    if limbs.len() != lo.len() || lo.len() != hi.len() {
+        panic!("schoolbook squaring length mismatch");
+    }
+//@+
+    let ghost n = limbs.len() as nat;
+    let ghost xs = limbs@;
+    proof {
+        lemma_val_zero(lo@ + hi@, 1);
+        lemma_bp_succ(0);
+        assert(sq_half(xs, 1) == 0) by {
+            assert(sq_half(xs, 0) == 0);
+            assert(val(xs, 0) == 0);
+            assert(xs[0].0 as int * 0 * bp(0) == 0) by (nonlinear_arith);
+        }
+    }
+//@-
+    let mut i = 1;
+    while i < limbs.len()
+//@+
+        invariant
+            n == limbs.len(), xs == limbs@, lo.len() == n, hi.len() == n, 2 * n <= usize::MAX,
+            1 <= i <= n,
+            val(lo@ + hi@, (2 * i - 1) as nat) == sq_half(xs, i as nat),
+            forall|k: int| 2 * i - 1 <= k < 2 * n ==> (lo@ + hi@)[k].0 == 0,
+        decreases n - i
+//@-
+{
+        let mut j = 0;
+        let mut carry = Limb::ZERO;
+        let xi = limbs[i];
+//@+
+        let ghost cold = lo@ + hi@;
+        let ghost p = sq_half(xs, i as nat);
+        proof {
+            lemma_val_hi_zero(cold, (2 * i - 1) as nat, (2 * i) as nat);
+            lemma_bp_succ(0);
+            assert(val(xs, 0) == 0);
+            assert(xi.0 as int * 0 * bp(i as nat) == 0) by (nonlinear_arith);
+        }
+//@-
+        while j < i
+//@+
+            invariant
+                n == limbs.len(), xs == limbs@, lo.len() == n, hi.len() == n, 2 * n <= usize::MAX,
+                1 <= i < n, j <= i, xi == limbs[i as int],
+                cold.len() == 2 * n,
+                val(cold, (2 * i) as nat) == p,
+                forall|k: int| 2 * i - 1 <= k < 2 * n ==> cold[k].0 == 0,
+                forall|k: int| i + j <= k < 2 * n ==> (lo@ + hi@)[k] == cold[k],
+                val(lo@ + hi@, (i + j) as nat) + carry.0 as int * bp((i + j) as nat) + (val(cold, (2 * i) as nat) - val(cold, (i + j) as nat))
+                    == p + xi.0 as int * val(xs, j as nat) * bp(i as nat),
+            decreases i - j
+//@-
+{
+            let k = i + j;
+//@+
+            let ghost c_before = lo@ + hi@;
+            let ghost carry_before = carry;
+//@-
+            if k >= limbs.len() {
+                let (__t0, __t1) = hi[k - limbs.len()].mac(xi, limbs[j], carry); hi[k - limbs.len()] = __t0; carry = __t1;
+            } else {
+                let (__t2, __t3) = lo[k].mac(xi, limbs[j], carry); lo[k] = __t2; carry = __t3;
+            }
+//@+
+            proof {
+                let c_after = lo@ + hi@;
+                assert(c_after =~= c_before.update(k as int, c_after[k as int]));
+                lemma_val_ext(c_before, c_after, k as nat);
+                assert(c_before[k as int] == cold[k as int]);
+                lemma_mac_step(c_after, cold, xs, i as nat, j as nat, xi.0 as int, carry.0 as int, carry_before.0 as int);
+            }
+//@-
+            j += 1;
+        }
+//@+
+        let ghost c_before = lo@ + hi@;
+//@-
+        if (2 * i) < limbs.len() {
+            lo[2 * i] = carry;
+        } else {
+            hi[2 * i - limbs.len()] = carry;
+        }
+//@+
+        proof {
+            let c_after = lo@ + hi@;
+            let k = (2 * i) as nat;
+            assert(c_after =~= c_before.update(k as int, carry));
+            lemma_val_ext(c_before, c_after, k);
+            assert(val(c_after, k + 1) == val(c_after, k) + carry.0 as int * bp(k));
+            assert(sq_half(xs, (i + 1) as nat) == p + xi.0 as int * val(xs, i as nat) * bp(i as nat));
+            assert((2 * (i + 1) - 1) as nat == k + 1);
+            assert forall|q: int| 2 * (i + 1) - 1 <= q < 2 * n implies c_after[q].0 == 0 by {
+                assert(c_after[q] == c_before[q]);
+                assert(c_before[q] == cold[q]);
+            }
+        }
+//@-
+        i += 1;
+    }
+    // Double the current result, this accounts for the other half of the multiplication grid.
+    // The top word is empty, so we use a special purpose shl.
+    let mut carry = Limb::ZERO;
+    let mut i = 0;
+//@+
+    let ghost c0 = lo@ + hi@;
+    proof { lemma_bp_succ(0); }
+//@-
+    while i < limbs.len()
+//@+
+        invariant
+            n == limbs.len(), lo.len() == n, hi.len() == n, 2 * n <= usize::MAX,
+            i <= n, carry.0 <= 1, c0.len() == 2 * n,
+            forall|k: int| i <= k < 2 * n ==> (lo@ + hi@)[k] == c0[k],
+            val(lo@ + hi@, i as nat) + carry.0 as int * bp(i as nat) == 2 * val(c0, i as nat),
+        decreases n - i
+//@-
+{
+//@+
+        let ghost cb = lo@ + hi@;
+        let ghost cin = carry.0;
+//@-
+        let (__t4, __t5) = ((lo[i].0 << 1) | carry.0, lo[i].shr(Limb::BITS - 1)); lo[i].0 = __t4; carry = __t5;
+//@+
+        proof {
+            let ca = lo@ + hi@;
+            let w = c0[i as int].0;
+            assert(cb[i as int] == c0[i as int]);
+            lemma_dbl(w, cin, __t4, __t5.0);
+            assert(ca =~= cb.update(i as int, Limb(__t4)));
+            lemma_dbl_step(ca, cb, c0, i as nat, __t5.0 as int, cin as int);
+        }
+//@-
+        i += 1;
+    }
+    let mut i = 0;
+    while i < limbs.len() - 1
+//@+
+        invariant
+            n == limbs.len(), n >= 1, lo.len() == n, hi.len() == n, 2 * n <= usize::MAX,
+            i <= n - 1, carry.0 <= 1, c0.len() == 2 * n,
+            forall|k: int| n + i <= k < 2 * n ==> (lo@ + hi@)[k] == c0[k],
+            val(lo@ + hi@, (n + i) as nat) + carry.0 as int * bp((n + i) as nat) == 2 * val(c0, (n + i) as nat),
+        decreases n - 1 - i
+//@-
+{
+//@+
+        let ghost cb = lo@ + hi@;
+        let ghost cin = carry.0;
+//@-
+        let (__t6, __t7) = ((hi[i].0 << 1) | carry.0, hi[i].shr(Limb::BITS - 1)); hi[i].0 = __t6; carry = __t7;
+//@+
+        proof {
+            let ca = lo@ + hi@;
+            let w = c0[n + i].0;
+            assert(cb[n + i] == c0[n + i]);
+            lemma_dbl(w, cin, __t6, __t7.0);
+            assert(ca =~= cb.update(n + i, Limb(__t6)));
+            lemma_dbl_step(ca, cb, c0, (n + i) as nat, __t7.0 as int, cin as int);
+        }
+//@-
+        i += 1;
+    }
+//@+
+    let ghost cb2 = lo@ + hi@;
+//@-
+    hi[limbs.len() - 1] = carry;
+    // Handle the diagonal of the multiplication grid, which finishes the multiplication grid.
+    let mut carry = Limb::ZERO;
+    let mut i = 0;
+//@+
+    let ghost c1 = lo@ + hi@;
+    proof {
+        let k = (2 * n - 1) as nat;
+        assert(c1 =~= cb2.update(k as int, c1[k as int]));
+        lemma_val_ext(cb2, c1, k);
+        assert(val(c1, k + 1) == val(c1, k) + c1[k as int].0 as int * bp(k));
+        assert(val(c1, (2 * n) as nat) == 2 * sq_half(xs, n));
+        assert(sq_diag(xs, 0) == 0);
+    }
+//@-
+    while i < limbs.len()
+//@+
+        invariant
+            n == limbs.len(), xs == limbs@, lo.len() == n, hi.len() == n, 2 * n <= usize::MAX,
+            i <= n, c1.len() == 2 * n,
+            forall|k: int| 2 * i <= k < 2 * n ==> (lo@ + hi@)[k] == c1[k],
+            val(lo@ + hi@, (2 * i) as nat) + carry.0 as int * bp((2 * i) as nat) == val(c1, (2 * i) as nat) + sq_diag(xs, i as nat),
+        decreases n - i
+//@-
+{
+        let xi = limbs[i];
+//@+
+        let ghost cb = lo@ + hi@;
+        let ghost cin = carry.0 as int;
+//@-
+        if (i * 2) < limbs.len() {
+            let (__t8, __t9) = lo[i * 2].mac(xi, xi, carry); lo[i * 2] = __t8; carry = __t9;
+        } else {
+            let (__t10, __t11) = hi[i * 2 - limbs.len()].mac(xi, xi, carry); hi[i * 2 - limbs.len()] = __t10; carry = __t11;
+        }
+//@+
+        let ghost cm = lo@ + hi@;
+        let ghost cmid = carry.0 as int;
+        proof {
+            let k = (2 * i) as nat;
+            assert(cm =~= cb.update(k as int, cm[k as int]));
+            assert(cb[k as int] == c1[k as int]);
+        }
+//@-
+        if (i * 2 + 1) < limbs.len() {
+            let (__t12, __t13) = lo[i * 2 + 1].overflowing_add(carry); lo[i * 2 + 1] = __t12; carry = __t13;
+        } else {
+            let (__t14, __t15) = hi[i * 2 + 1 - limbs.len()].overflowing_add(carry); hi[i * 2 + 1 - limbs.len()] = __t14; carry = __t15;
+        }
+//@+
+        proof {
+            let ca = lo@ + hi@;
+            let k = (2 * i) as nat;
+            assert(ca =~= cm.update((k + 1) as int, ca[(k + 1) as int]));
+            assert(cm[(k + 1) as int] == c1[(k + 1) as int]);
+            lemma_diag_step(ca, cm, cb, c1, xs, i as nat, cin, cmid, carry.0 as int);
+        }
+//@-
+        i += 1;
+    }
+//@+
+    proof {
+        let c = lo@ + hi@;
+        let x = val(xs, n);
+        lemma_sq_decomp(xs, n);
+        lemma_val_bound(xs, n);
+        lemma_val_bound(c, (2 * n) as nat);
+        lemma_bp_add(n, n);
+        let w = bp(n); let ww = bp((2 * n) as nat); let cy = carry.0 as int;
+        assert((n + n) as nat == (2 * n) as nat);
+        assert(x * x < w * w) by (nonlinear_arith) requires 0 <= x < w;
+        assert(cy == 0) by (nonlinear_arith) requires val(c, (2 * n) as nat) + cy * ww == x * x, x * x < ww, val(c, (2 * n) as nat) >= 0, cy >= 0;
+        assert(0 * ww == 0);
+        lemma_val_concat(lo@, hi@, n);
+    }
+//@-
+}
+//@@ end
+//@@ fn src/uint/mul.rs | - | uint_mul_limbs | body | props C03 C11
+pub const fn uint_mul_limbs<const LIMBS: usize, const RHS_LIMBS: usize>(
+    lhs: &[Limb],
+    rhs: &[Limb],
+) -> (ret__: (Uint<LIMBS>, Uint<RHS_LIMBS>))
+//@+
+    requires LIMBS >= 1, RHS_LIMBS >= 1, lhs.len() == LIMBS, rhs.len() == RHS_LIMBS, LIMBS + RHS_LIMBS <= usize::MAX
+    ensures ret__.0.v() + ret__.1.v() * bp(LIMBS as nat) == val(lhs@, LIMBS as nat) * val(rhs@, RHS_LIMBS as nat),
+        ret__.0.v() == (val(lhs@, LIMBS as nat) * val(rhs@, RHS_LIMBS as nat)) % bp(LIMBS as nat),
+        ret__.1.v() == (val(lhs@, LIMBS as nat) * val(rhs@, RHS_LIMBS as nat)) / bp(LIMBS as nat),
+        (ret__.1.v() == 0) == (val(lhs@, LIMBS as nat) * val(rhs@, RHS_LIMBS as nat) < bp(LIMBS as nat))
+//@-
+{
+    debug_assert!(lhs.len() == LIMBS && rhs.len() == RHS_LIMBS);
+    let mut lo: Uint<LIMBS> = Uint::<LIMBS>::ZERO();
+    let mut hi = Uint::<RHS_LIMBS>::ZERO();
+    schoolbook_multiplication(lhs, rhs, &mut lo.limbs, &mut hi.limbs);
+//@+
+    proof {
+        lemma_val_bound(lo.limbs@, LIMBS as nat); lemma_val_bound(hi.limbs@, RHS_LIMBS as nat);
+        lemma_split_facts(lo.v(), hi.v(), bp(LIMBS as nat), val(lhs@, LIMBS as nat) * val(rhs@, RHS_LIMBS as nat));
+    }
+//@-
+    (lo, hi)
+}
+//@@ end
+//@@ fn src/uint/mul.rs | - | uint_square_limbs | body | props C03 C11
+pub const fn uint_square_limbs<const LIMBS: usize>(
+    limbs: &[Limb],
+) -> (ret__: (Uint<LIMBS>, Uint<LIMBS>))
+//@+
+    requires LIMBS >= 1, limbs.len() == LIMBS, 2 * LIMBS <= usize::MAX
+    ensures ret__.0.v() + ret__.1.v() * bp(LIMBS as nat) == val(limbs@, LIMBS as nat) * val(limbs@, LIMBS as nat),
+        ret__.0.v() == (val(limbs@, LIMBS as nat) * val(limbs@, LIMBS as nat)) % bp(LIMBS as nat),
+        ret__.1.v() == (val(limbs@, LIMBS as nat) * val(limbs@, LIMBS as nat)) / bp(LIMBS as nat),
+        (ret__.1.v() == 0) == (val(limbs@, LIMBS as nat) * val(limbs@, LIMBS as nat) < bp(LIMBS as nat))
+//@-
+{
+    let mut lo = Uint::<LIMBS>::ZERO();
+    let mut hi = Uint::<LIMBS>::ZERO();
+    schoolbook_squaring(limbs, &mut lo.limbs, &mut hi.limbs);
+//@+
+    proof {
+        lemma_val_bound(lo.limbs@, LIMBS as nat); lemma_val_bound(hi.limbs@, LIMBS as nat);
+        lemma_split_facts(lo.v(), hi.v(), bp(LIMBS as nat), val(limbs@, LIMBS as nat) * val(limbs@, LIMBS as nat));
+    }
+//@-
+    (lo, hi)
+}
+//@@ end
+//@@ fn src/uint/mul.rs | impl<const LIMBS: usize> Uint<LIMBS> | split_mul | body | props C03 C11
 impl<const LIMBS: usize> Uint<LIMBS> {
-#[verifier::external_body]
 pub const fn split_mul<const RHS_LIMBS: usize>(
         &self,
         rhs: &Uint<RHS_LIMBS>,
     ) -> (ret__: (Self, Uint<RHS_LIMBS>))
 //@+
-    requires LIMBS >= 1, RHS_LIMBS >= 1
-    ensures ret__.0.v() + ret__.1.v() * bp(LIMBS as nat) == self.v() * rhs.v()
+    requires LIMBS >= 1, RHS_LIMBS >= 1, LIMBS + RHS_LIMBS <= usize::MAX
+    ensures ret__.0.v() + ret__.1.v() * bp(LIMBS as nat) == self.v() * rhs.v(),
+        ret__.0.v() == (self.v() * rhs.v()) % bp(LIMBS as nat),
+        ret__.1.v() == (self.v() * rhs.v()) / bp(LIMBS as nat),
+        (ret__.1.v() == 0) == (self.v() * rhs.v() < bp(LIMBS as nat))
 //@-
 {
-    unimplemented!()
-}
+        if LIMBS == RHS_LIMBS {
+            if LIMBS == 128 {
+                let (a, b) = UintKaratsubaMul::<128>::multiply(&self.limbs, &rhs.limbs);
+//@+
+                proof {
+                    lemma_val_bound(a.limbs@, 128); lemma_val_bound(b.limbs@, 128);
+                    lemma_split_facts(a.v(), b.v(), bp(128), self.v() * rhs.v());
+                }
+//@-
+                // resize() should be a no-op, but the compiler can't infer that Uint<LIMBS> is Uint<128>
+                return (a.resize(), b.resize());
+            }
+            if LIMBS == 64 {
+                let (a, b) = UintKaratsubaMul::<64>::multiply(&self.limbs, &rhs.limbs);
+//@+
+                proof {
+                    lemma_val_bound(a.limbs@, 64); lemma_val_bound(b.limbs@, 64);
+                    lemma_split_facts(a.v(), b.v(), bp(64), self.v() * rhs.v());
+                }
+//@-
+                return (a.resize(), b.resize());
+            }
+            if LIMBS == 32 {
+                let (a, b) = UintKaratsubaMul::<32>::multiply(&self.limbs, &rhs.limbs);
+//@+
+                proof {
+                    lemma_val_bound(a.limbs@, 32); lemma_val_bound(b.limbs@, 32);
+                    lemma_split_facts(a.v(), b.v(), bp(32), self.v() * rhs.v());
+                }
+//@-
+                return (a.resize(), b.resize());
+            }
+            if LIMBS == 16 {
+                let (a, b) = UintKaratsubaMul::<16>::multiply(&self.limbs, &rhs.limbs);
+//@+
+                proof {
+                    lemma_val_bound(a.limbs@, 16); lemma_val_bound(b.limbs@, 16);
+                    lemma_split_facts(a.v(), b.v(), bp(16), self.v() * rhs.v());
+                }
+//@-
+                return (a.resize(), b.resize());
+            }
+        }
+        uint_mul_limbs(&self.limbs, &rhs.limbs)
+    }
 }
 //@@ end
-//@@ fn src/uint/mul.rs | impl<const LIMBS: usize> Uint<LIMBS> | wrapping_mul | stub | props C03 C11
+//@@ fn src/uint/mul.rs | impl<const LIMBS: usize> Uint<LIMBS> | wrapping_mul | body | props C03 C11
 impl<const LIMBS: usize> Uint<LIMBS> {
-#[verifier::external_body]
 pub const fn wrapping_mul<const H: usize>(&self, rhs: &Uint<H>) -> (ret__: Self)
 //@+
-    requires LIMBS >= 1, H >= 1
+    requires LIMBS >= 1, H >= 1, LIMBS + H <= usize::MAX
     ensures ret__.v() == (self.v() * rhs.v()) % bp(LIMBS as nat)
 //@-
 {
-    unimplemented!()
-}
+        self.split_mul(rhs).0
+    }
 }
 //@@ end
-//@@ fn src/uint/mul.rs | impl<const LIMBS: usize> Uint<LIMBS> | square_wide | stub | props C03 C11 C15
+//@@ fn src/uint/mul.rs | impl<const LIMBS: usize> Uint<LIMBS> | square_wide | body | props C03 C11 C15
 impl<const LIMBS: usize> Uint<LIMBS> {
-#[verifier::external_body]
 pub const fn square_wide(&self) -> (ret__: (Self, Self))
 //@+
-    requires LIMBS >= 1
-    ensures ret__.0.v() + ret__.1.v() * bp(LIMBS as nat) == self.v() * self.v()
+    requires LIMBS >= 1, 2 * LIMBS <= usize::MAX
+    ensures ret__.0.v() + ret__.1.v() * bp(LIMBS as nat) == self.v() * self.v(),
+        ret__.0.v() == (self.v() * self.v()) % bp(LIMBS as nat),
+        ret__.1.v() == (self.v() * self.v()) / bp(LIMBS as nat),
+        (ret__.1.v() == 0) == (self.v() * self.v() < bp(LIMBS as nat))
 //@-
 {
-    unimplemented!()
+        if LIMBS == 128 {
+            let (a, b) = UintKaratsubaMul::<128>::square(&self.limbs);
+//@+
+            proof {
+                lemma_val_bound(a.limbs@, 128); lemma_val_bound(b.limbs@, 128);
+                lemma_split_facts(a.v(), b.v(), bp(128), self.v() * self.v());
+            }
+//@-
+            // resize() should be a no-op, but the compiler can't infer that Uint<LIMBS> is Uint<128>
+            return (a.resize(), b.resize());
+        }
+        if LIMBS == 64 {
+            let (a, b) = UintKaratsubaMul::<64>::square(&self.limbs);
+//@+
+            proof {
+                lemma_val_bound(a.limbs@, 64); lemma_val_bound(b.limbs@, 64);
+                lemma_split_facts(a.v(), b.v(), bp(64), self.v() * self.v());
+            }
+//@-
+            return (a.resize(), b.resize());
+        }
+        uint_square_limbs(&self.limbs)
+    }
 }
+//@@ end
+//@@ fn src/uint/mul.rs | impl<const LIMBS: usize> Uint<LIMBS> | saturating_mul | body | props C03 C11
+impl<const LIMBS: usize> Uint<LIMBS> {
+pub const fn saturating_mul<const RHS_LIMBS: usize>(&self, rhs: &Uint<RHS_LIMBS>) -> (ret__: Self)
+//@+
+    requires LIMBS >= 1, RHS_LIMBS >= 1, LIMBS + RHS_LIMBS <= usize::MAX
+    ensures ret__.v() == min_int(self.v() * rhs.v(), bp(LIMBS as nat) - 1)
+//@-
+{
+        let (res, overflow) = self.split_mul(rhs);
+//@+
+        proof { lemma_val_bound(res.limbs@, LIMBS as nat); }
+//@-
+        Self::select(&res, &Self::MAX(), overflow.is_nonzero())
+    }
+}
+//@@ end
+//@@ fn src/uint/mul.rs | impl<const LIMBS: usize> Uint<LIMBS> | checked_square | body | props C03 C11
+impl<const LIMBS: usize> Uint<LIMBS> {
+pub const fn checked_square(&self) -> (ret__: ConstCtOption<Uint<LIMBS>>)
+//@+
+    requires LIMBS >= 1, 2 * LIMBS <= usize::MAX
+    ensures ret__.is_some.wf(), ret__.is_some.t() == (self.v() * self.v() < bp(LIMBS as nat)),
+        ret__.value.v() == (self.v() * self.v()) % bp(LIMBS as nat),
+        ret__.is_some.t() ==> ret__.value.v() == self.v() * self.v()
+//@-
+{
+        let (lo, hi) = self.square_wide();
+        ConstCtOption::new(lo, Self::eq(&hi, &Self::ZERO()))
+    }
+}
+//@@ end
+//@@ fn src/uint/mul.rs | impl<const LIMBS: usize> Uint<LIMBS> | wrapping_square | body | props C03 C11
+impl<const LIMBS: usize> Uint<LIMBS> {
+pub const fn wrapping_square(&self) -> (ret__: Uint<LIMBS>)
+//@+
+    requires LIMBS >= 1, 2 * LIMBS <= usize::MAX
+    ensures ret__.v() == (self.v() * self.v()) % bp(LIMBS as nat)
+//@-
+{
+        self.square_wide().0
+    }
+}
+//@@ end
+//@@ fn src/uint/mul.rs | impl<const LIMBS: usize> Uint<LIMBS> | saturating_square | body | props C03 C11
+impl<const LIMBS: usize> Uint<LIMBS> {
+pub const fn saturating_square(&self) -> (ret__: Self)
+//@+
+    requires LIMBS >= 1, 2 * LIMBS <= usize::MAX
+    ensures ret__.v() == min_int(self.v() * self.v(), bp(LIMBS as nat) - 1)
+//@-
+{
+        let (res, overflow) = self.square_wide();
+//@+
+        proof { lemma_val_bound(res.limbs@, LIMBS as nat); }
+//@-
+        Self::select(&res, &Self::MAX(), overflow.is_nonzero())
+    }
 }
 //@@ end
 
